@@ -46,6 +46,7 @@ pub fn generator(prop: &str) -> Option<Gen> {
         "C16" => Some(gen::gen_c16),
         "C07" => Some(gen::gen_c07),
         "C19" => Some(gen::gen_c19),
+        "C05" => Some(gen::gen_c05),
         _ => None,
     }
 }
@@ -56,6 +57,7 @@ pub fn budget(prop: &str, tier: &str) -> u64 {
         "C16" => 400,
         "C07" => 400,
         "C19" => 300,
+        "C05" => 300,
         "C14" => 3 * 6 * 155 + 200,
         _ => 150,
     };
